@@ -189,6 +189,7 @@ func (w *World) FullSweep(t *rapid.T, l *LState, o HistOpts) {
 	w.CheckLogs(l, 4, paginate.OrderAsc)
 	w.CheckMovesTable(l)
 	w.CheckVolumesTable(l)
+	w.CheckStats(l)
 	if len(l.M.Txs) > 0 {
 		// a point in time beyond every recorded date: the answer is the current state, but it is computed from the moves
 		beyond := w.Env.Sim.Clock().Add(1000 * time.Hour)
